@@ -22,6 +22,7 @@ var directedImports = []string{
 	"import tmpfs tmpfs /tmp",
 	"import bind $$self/shm /dev/shm",
 	"import bind /VB/layers-shared/distfiles /mnt/shared",
+	"import bind /VB/hostsrc /mnt/share\\", // the kernel shows the final backslash as \134 at the very end of the field
 }
 
 func directedScenario(g *Gen, imp string, variant int) Case {
@@ -224,6 +225,49 @@ func shapedScenario(g *Gen, which int) Case {
 			um["users"] = []interface{}{user("d0", 1, g.Pick("build/usr", "build", "overlayfs/upperdir"))}
 		}
 		steps = []interface{}{cmd("mount", "d0"), cmd("probe"), um, cmd("probe"), umountAll(), cmd("probe")}
+	case 14:
+		// a layer whose layerconfig is a symbolic link to the real definition kept elsewhere,
+		// with and without a child
+		for _, l := range []glayer{{name: "b0", imports: imports}, {name: "d0", base: "b0", imports: imports}, {name: "solo", imports: imports}} {
+			genLayerTree(g, t, l, pf, false)
+		}
+		for _, n := range []string{"b0", "solo"} {
+			lc := VB + "/layers/" + n + "/layerconfig"
+			content := t.ents[lc][2]
+			delete(t.ents, lc)
+			t.dir(VB + "/defs")
+			t.ents[VB+"/defs/"+n+".skel"] = []interface{}{hx(VB + "/defs/" + n + ".skel"), "f", content}
+			t.link(lc, VB+"/defs/"+n+".skel")
+		}
+		steps = []interface{}{cmd("probe"), cmd("add", "solo", "", ""), cmd("probe"), cmd("rename", "solo", "solo2"), cmd("probe"),
+			cmd("rebase", "d0", "solo2"), cmd("probe")}
+	case 15:
+		// an unpopulated derived layer whose only foreign content lies in the overlay work
+		// directory; and a base layer with explicit export directives whose exported directory
+		// holds files: mount (links are made), unmount, remove without -files
+		ex := []string{"export symlink /var/cache/binpkgs $$package_export"}
+		for _, l := range []glayer{{name: "b0", imports: imports, exports: ex}, {name: "other", imports: imports}} {
+			genLayerTree(g, t, l, pf, false)
+		}
+		t.file(VB+"/layers/b0/build/var/cache/binpkgs/pkg-1.tbz2", "binary package")
+		t.file(VB+"/layers/b0/packages/kept.tbz2", "binary package")
+		dp := VB + "/layers/d0"
+		t.file(dp+"/layerconfig", "base nosuch\n\nimport proc /proc /proc\n")
+		delete(t.ents, dp+"/layerconfig")
+		t.file(dp+"/layerconfig", "base other\n\nimport proc /proc /proc\n")
+		t.dir(dp + "/build")
+		t.dir(dp + "/overlayfs/upperdir")
+		t.file(dp+"/overlayfs/workdir/work/#12", "leftover")
+		// "other" lacks its FHS directories, so d0 is probed "not yet populated"
+		for _, n := range []string{"bin", "etc", "lib", "opt", "sbin", "usr"} {
+			for k := range t.ents {
+				if strings.HasPrefix(k, VB+"/layers/other/build/"+n) {
+					delete(t.ents, k)
+				}
+			}
+		}
+		steps = []interface{}{cmd("probe"), obj("cmd", "remove", "args", hxs([]string{"d0"}), "files", false), cmd("probe"),
+			cmd("mount", "b0"), umountAll(), obj("cmd", "remove", "args", hxs([]string{"b0"}), "files", false), cmd("probe")}
 	default:
 		// export directory names that differ from the layer's own directory names, explicit
 		// export directives, then rename and remove
@@ -242,7 +286,7 @@ func shapedScenario(g *Gen, which int) Case {
 
 func init() {
 	register("scn-directed", func(g *Gen, tier string, emit func(Case)) {
-		for w := 0; w < 15; w++ {
+		for w := 0; w < 17; w++ {
 			emit(shapedScenario(g, w))
 		}
 		for _, imp := range directedImports {
